@@ -61,7 +61,7 @@ func DecodeDir(codec Codec, rd io.Reader, d *Dir) error {
 		return err
 	}
 
-	p := make([]byte, ll+2)
+	p := make([]byte, int(ll)+2)
 	binary.LittleEndian.PutUint16(p, ll) // must have size at start
 
 	// read out the rest of the record
